@@ -36,6 +36,9 @@ type Config struct {
 	RejectAt    []int    `json:"reject_at,omitempty"`     // nodes whose validator additionally rejects blocks with an id ending in "!r"
 	Absent      []int    `json:"absent,omitempty"`        // identities that are NOT in the committee ...
 	AbsentH     uint64   `json:"absent_h,omitempty"`      // ... of this height (membership changes between heights; a correct absent node only moves on by sync)
+	SendFail    []int    `json:"send_fail,omitempty"`     // nodes whose transport fails ...
+	SendFailU   int      `json:"send_fail_u,omitempty"`   // ... on sends of this envelope kind + 1 (0 = any kind) ...
+	SendFailNth int      `json:"send_fail_nth,omitempty"` // ... at the n-th such send (1-based; 0 = every one): half of the recipients get the message, the library gets an error
 }
 
 type Commit struct {
@@ -159,14 +162,15 @@ type World struct {
 }
 
 type Obs struct {
-	Commits     int
-	MaxView     uint64
-	ByzStored   int // Store* of a message whose claimed sender is Byzantine/outsider returned true at a correct node
-	Delivered   int
-	Timeouts    int
-	Strategies  map[string]int
-	HeightsDone uint64
-	Panicked    bool
+	Commits      int
+	MaxView      uint64
+	ByzStored    int // Store* of a message whose claimed sender is Byzantine/outsider returned true at a correct node
+	Delivered    int
+	Timeouts     int
+	Strategies   map[string]int
+	HeightsDone  uint64
+	Panicked     bool
+	SendFailures int
 }
 
 func isIn(xs []int, x int) bool {
@@ -303,7 +307,7 @@ func (w *World) newNode(i int) *Node {
 	n.KM = &fakes.KeyManager{Reg: w.Reg, Me: n.ID}
 	cfg := &interfaces.Config{
 		InstanceId:              Instance,
-		Communication:           &fakes.Communication{Send: func(rec []primitives.MemberId, raw *interfaces.ConsensusRawMessage) { w.onSend(n, rec, raw) }},
+		Communication:           w.transport(n),
 		Membership:              n.Mem,
 		BlockUtils:              n.BU,
 		KeyManager:              n.KM,
@@ -321,6 +325,27 @@ func (w *World) newNode(i int) *Node {
 			w.onRound(n, uint64(h), prev, canBeFirst)
 		})
 	return n
+}
+
+// transport: the node's Communication SPI. For nodes listed in SendFail the configured send fails half way: only the first half
+// of the recipients get the message and the library is told the send failed.
+func (w *World) transport(n *Node) *fakes.Communication {
+	c := &fakes.Communication{Send: func(rec []primitives.MemberId, raw *interfaces.ConsensusRawMessage) { w.onSend(n, rec, raw) }}
+	if isIn(w.Cfg.SendFail, n.Idx) {
+		count := 0
+		c.Fail = func(rec []primitives.MemberId, raw *interfaces.ConsensusRawMessage) ([]primitives.MemberId, error) {
+			if w.Cfg.SendFailU != 0 && MetaOf(raw).Union != w.Cfg.SendFailU-1 {
+				return rec, nil
+			}
+			count++
+			if w.Cfg.SendFailNth != 0 && count != w.Cfg.SendFailNth {
+				return rec, nil
+			}
+			w.Obs.SendFailures++
+			return rec[:len(rec)/2], fmt.Errorf("transport of node %d failed after %d of %d recipients", n.Idx, len(rec)/2, len(rec))
+		}
+	}
+	return c
 }
 
 // Start brings every live correct node to height 1 the way a consumer does: UpdateState(genesis).
